@@ -163,7 +163,10 @@ def check_config_sequence(case, acc):
     from cardutil import mciipm, config
     live = config.config['bit_config']
     saved = copy.deepcopy(live)
-    acc.case(('cfgseq', case['enc'], case['blocked'], tuple(case['steps'])), nontrivial=True, outcome='config_sequence')
+    rebind = case.get('mode') == 'rebind'
+    acc.case(('cfgseq', case['enc'], case['blocked'], tuple(case['steps']), rebind), nontrivial=True,
+             outcome='config_sequence' + ('_rebind' if rebind else ''))
+    original = live
 
     def file_with(bit, value, cfg):
         f = io.BytesIO()
@@ -176,6 +179,11 @@ def check_config_sequence(case, acc):
     files = {'de7': file_with(7, '0102030405', cfg7), 'de26': file_with(26, 5411, saved), 'de3': file_with(3, '000000', saved)}
     try:
         for step in case['steps']:
+            if rebind and not step.startswith('info'):
+                # a NEW configuration object is installed as the package default (config['bit_config'] = ..., what
+                # loading a site configuration does) instead of editing the old one in place
+                live = copy.deepcopy(config.config['bit_config'])
+                config.config['bit_config'] = live
             if step == 'add7':
                 live['7'] = dict(cfg7['7'])
             elif step == 'del7':
@@ -199,8 +207,9 @@ def check_config_sequence(case, acc):
                              'element %s is %sconfigured at the time of the call' % (needs, '' if want_valid else 'not '))
                     return
     finally:
-        live.clear()
-        live.update(saved)
+        config.config['bit_config'] = original
+        original.clear()
+        original.update(saved)
 
 
 CONFIG_SEQUENCES = [
@@ -289,6 +298,7 @@ def enumerate_cases(tier, seed):
         for enc in ('latin_1', 'cp500'):
             for blocked in (False, True):
                 cases.append({'kind': 'cfgseq', 'enc': enc, 'blocked': blocked, 'steps': steps})
+                cases.append({'kind': 'cfgseq', 'enc': enc, 'blocked': blocked, 'steps': steps, 'mode': 'rebind'})
     for n in range(0, 40):
         cases.append({'kind': 'short', 'n': n})
     for mx in (None, 100, 1012):
